@@ -1215,7 +1215,7 @@ def gen_flatten_base(rng):
 
 def gen_affine_mixed(rng):
     """Convolution-like Einsums with plain ranks next to the index-math ranks."""
-    form = rng.choice(["1d", "1d_m", "2d", "stride"])
+    form = rng.choice(["1d", "1d_m", "2d", "stride", "2term", "2term_take"])
     if form == "1d":
         decl = {"I": ["W"], "F": ["S"], "O": ["Q"]}
         expr = "O[q] = I[q + s] * F[s]"
@@ -1228,13 +1228,21 @@ def gen_affine_mixed(rng):
         decl = {"I": ["H", "W"], "F": ["R", "S"], "O": ["P", "Q"]}
         expr = "O[p, q] = I[p + r, q + s] * F[r, s]"
         loop = ["P", "Q", "R", "S"]
+    elif form == "2term":
+        decl = {"I": ["W"], "F": ["S"], "J": ["W"], "G": ["S"], "O": ["Q"]}
+        expr = "O[q] = I[q + s] * F[s] + J[q + s] * G[s]"
+        loop = ["Q", "S"]
+    elif form == "2term_take":
+        decl = {"I": ["M", "W"], "F": ["S"], "J": ["W"], "G": ["M", "S"], "O": ["M", "Q"]}
+        expr = "O[m, q] = I[m, q + s] * F[s] + take(J[q + s], G[m, s], %d)" % rng.randint(0, 1)
+        loop = ["M", "Q", "S"]
     else:
         decl = {"I": ["C", "W"], "F": ["C", "S"], "O": ["Q"]}
         expr = "O[q] = I[c, 2 * q + s] * F[c, s]"
         loop = ["Q", "C", "S"]
     rng.shuffle(loop)
     parts = None
-    if rng.random() < 0.4:
+    if rng.random() < 0.4 and not form.startswith("2term"):
         depth = rng.choice([1, 1, 2])
         parts = {"O": {"Q": ["uniform_shape(%d)" % s for s in [6, 3][:depth]], "W": ["follow(Q)"]}}
         lv = ["Q%d" % i for i in range(depth, -1, -1)]
